@@ -252,5 +252,143 @@ theorem pushUnused_full {s : Store τ} (x : τ) (h : s.unused.cap ≤ s.unused.i
   have : ¬ s.unused.items.length < s.unused.cap := by omega
   simp [pushUnused, Ring.push, this]
 
+theorem order_nodup' {cap : Nat} {held : List Key} {s : Store τ} (h : WF cap held s) : s.arena.order.Nodup := by
+  have := h.ownNodup
+  simp only [ownIdx, List.nodup_append] at this
+  exact this.2.1.2.1
+
+/-- the whole drain loop (no interleaving): well-formedness is kept, the new ring is untouched,
+    slots outside the visited list are untouched, and every visited slot whose resource passes the
+    test ends up free with a bumped generation -/
+theorem wf_drainLoop (test : τ → Bool) {cap : Nat} {held : List Key} :
+    ∀ (l : List Nat) (s s1 : Store τ), WF cap held s → l.Nodup → (∀ i ∈ l, i ∈ s.arena.order) →
+      drainLoop test l s = .ok s1 →
+      WF cap held s1 ∧ s1.newRing = s.newRing
+      ∧ (∀ j, j ∉ l → s1.arena.slots[j]? = s.arena.slots[j]? ∧ s1.ctrl.generation j = s.ctrl.generation j)
+      ∧ (∀ j, s.ctrl.generation j ≤ s1.ctrl.generation j)
+      ∧ (∀ i ∈ l, ∀ sl d, s.arena.slots[i]? = some sl → sl.data = some d → test d = true →
+            s.ctrl.generation i < s1.ctrl.generation i)
+      ∧ (∀ j, j ∈ s1.arena.order → j ∈ s.arena.order) := by
+  intro l
+  induction l with
+  | nil =>
+    intro s s1 wf _ _ hs
+    simp [drainLoop] at hs; subst hs
+    exact ⟨wf, rfl, fun j _ => ⟨rfl, rfl⟩, fun j => Nat.le_refl _, by simp, fun j h => h⟩
+  | cons i rest ih =>
+    intro s s1 wf hnd hall hs
+    have hnd' := List.nodup_cons.mp hnd
+    have hi : i ∈ s.arena.order := hall i (by simp)
+    have spec := wf_drainVisit test wf hi
+    simp only [drainLoop] at hs
+    cases hv : s.drainVisit test i with
+    | error e => simp [hv, VisitSpec] at spec
+    | ok p =>
+      obtain ⟨xo, st⟩ := p
+      cases xo with
+      | none =>
+        simp only [hv, VisitSpec] at spec hs
+        obtain ⟨rfl, sl0, d0, hsl0, hd0, ht0⟩ := spec
+        obtain ⟨wf1, hn1, hsame, hmono, hrem, hsub⟩ := ih st s1 wf hnd'.2 (fun j hj => hall j (by simp [hj])) hs
+        refine ⟨wf1, hn1, fun j hj => hsame j (by simp at hj; exact hj.2), hmono, ?_, hsub⟩
+        intro j hj sl d hsl hd ht
+        simp only [List.mem_cons] at hj
+        rcases hj with rfl | hj
+        · rw [hsl0] at hsl; cases hsl; rw [hd0] at hd; cases hd; rw [ht0] at ht; cases ht
+        · exact hrem j hj sl d hsl hd ht
+      | some x =>
+        simp only [hv, VisitSpec] at spec hs
+        obtain ⟨wf', htx, ⟨sl, hsl, hdx⟩, hord, hlen, hn, hu, hdr, hgi, hoth, _⟩ := spec
+        cases hp : st.pushUnused x with
+        | error e => simp [hp] at hs
+        | ok st2 =>
+          simp only [hp] at hs
+          obtain ⟨wf2, hc2, ha2, hn2, hd2, hit2, _⟩ := wf_pushUnused x wf' hp
+          have hond := order_nodup' wf
+          have hall2 : ∀ j ∈ rest, j ∈ st2.arena.order := by
+            intro j hj
+            rw [ha2, hord]
+            have hne : j ≠ i := by intro e; rw [e] at hj; exact hnd'.1 hj
+            exact (List.mem_erase_of_ne hne).mpr (hall j (by simp [hj]))
+          obtain ⟨wf1, hn1, hsame, hmono, hrem, hsub⟩ := ih st2 s1 wf2 hnd'.2 hall2 hs
+          have hgm : ∀ j, s.ctrl.generation j ≤ st2.ctrl.generation j := by
+            intro j; rw [hc2]; by_cases hj : j = i
+            · rw [hj, hgi]; omega
+            · rw [(hoth j hj).1]; exact Nat.le_refl _
+          refine ⟨wf1, by rw [hn1, hn2, hn], ?_, fun j => Nat.le_trans (hgm j) (hmono j), ?_, ?_⟩
+          · intro j hj
+            simp only [List.mem_cons, not_or] at hj
+            obtain ⟨h1, h2⟩ := hsame j hj.2
+            rw [h1, h2, ha2, hc2]
+            exact ⟨(hoth j hj.1).2, (hoth j hj.1).1⟩
+          · intro j hj slj d hslj hd ht
+            simp only [List.mem_cons] at hj
+            rcases hj with rfl | hj
+            · have := hmono j; rw [hc2, hgi] at this; omega
+            · have hne : j ≠ i := by intro e; rw [e] at hj; exact hnd'.1 hj
+              have := hrem j hj slj d (by rw [ha2, (hoth j hne).2]; exact hslj) hd ht
+              rw [hc2, (hoth j hne).1] at this; exact this
+          · intro j hj
+            have := hsub j hj
+            rw [ha2, hord] at this
+            exact List.mem_of_mem_erase this
+
+/-- the whole insert loop: every (key, resource) that was in the new ring resolves in the arena afterwards -/
+theorem wf_addItems {cap : Nat} {held : List Key} :
+    ∀ (items : List (Key × τ)) (s s1 : Store τ) (ks : List Key), WF cap held s → s.newRing.items = items →
+      addItems items s = .ok (s1, ks) →
+      WF cap held s1 ∧ s1.newRing.items = [] ∧ s1.ctrl = s.ctrl ∧ s1.unused = s.unused ∧ s1.dropped = s.dropped
+      ∧ ks = items.map (·.1)
+      ∧ s1.arena.order = (items.map (·.1.index)).reverse ++ s.arena.order
+      ∧ (∀ p ∈ items, s1.arena.slots[p.1.index]? = some ⟨some p.2, p.1.generation⟩)
+      ∧ (∀ j, j ∉ items.map (·.1.index) → s1.arena.slots[j]? = s.arena.slots[j]?) := by
+  intro items
+  induction items with
+  | nil =>
+    intro s s1 ks wf hit hs
+    simp [addItems] at hs
+    obtain ⟨rfl, rfl⟩ := hs
+    exact ⟨wf, hit, rfl, rfl, rfl, rfl, by simp, by simp, fun j _ => rfl⟩
+  | cons p rest ih =>
+    intro s s1 ks wf hit hs
+    have spec := wf_popNewInsert wf
+    simp only [addItems] at hs
+    cases hp : s.popNewInsert with
+    | error e => simp [hp, PopNewSpec] at spec
+    | ok q =>
+      obtain ⟨ko, st⟩ := q
+      cases ko with
+      | none =>
+        simp only [hp, PopNewSpec] at spec
+        rw [hit] at spec; simp at spec
+      | some k =>
+        simp only [hp, PopNewSpec] at spec hs
+        obtain ⟨wf', hc, hu, hd, hord, x, rest', hit0, hit', hslk, hoth, hbefore⟩ := spec
+        rw [hit] at hit0; cases hit0
+        cases hr : addItems rest st with
+        | error e => simp [hr] at hs
+        | ok q2 =>
+          obtain ⟨s2, ks2⟩ := q2
+          simp [hr] at hs
+          obtain ⟨rfl, rfl⟩ := hs
+          obtain ⟨wf1, he1, hc1, hu1, hd1, hks, hord1, hin1, hout1⟩ := ih st s2 ks2 wf' hit' hr
+          have hnd := wf.ownNodup
+          have hknot : ∀ q ∈ rest, q.1.index ≠ k.index := by
+            intro q hq
+            simp only [ownIdx, hit, List.map_cons, List.nodup_append, List.nodup_cons, List.mem_map] at hnd
+            intro e
+            exact hnd.2.1.1.1 ⟨q, hq, e⟩
+          refine ⟨wf1, he1, by rw [hc1, hc], by rw [hu1, hu], by rw [hd1, hd], by simp [hks], ?_, ?_, ?_⟩
+          · rw [hord1, hord]; simp
+          · intro q hq
+            simp only [List.mem_cons] at hq
+            rcases hq with rfl | hq
+            · rw [(hout1 k.index (by simp only [List.mem_map, not_exists, not_and]; intro q hq e; exact hknot q hq e))]
+              exact hslk
+            · exact hin1 q hq
+          · intro j hj
+            simp only [List.map_cons, List.mem_cons, not_or] at hj
+            rw [hout1 j hj.2, hoth j hj.1]
+
 end Store
 end K
